@@ -245,13 +245,17 @@ theorem quietStep_eq {c : Conn} {db now : Nat} (h : quietStep c db now = true) :
   unfold quietStep at h
   exact of_decide_eq_true h
 
+/-- what the log's tracking knows about the reader of the file: where it stands — or, right after a restart on an
+    inherited file, nothing (`unknownDb`), which is sound only if a SELECT is then emitted before the next entry -/
+def FileOk (cfg : Cfg) (st : LogSt) (cR : Conn) : Prop := st.file = cR.cur ∨ (cfg.logSelect = true ∧ 16 ≤ st.file)
+
 /-- Replaying the entries written for one command `c` that ran in database `d` (an optional SELECT, then `c`):
     the replayed store agrees with the live one after `c`, and the reader is where the tracking says. -/
 theorem replay_entries_sim (q : Quirks) (cfg : Cfg) (st : LogSt) (d : Nat) (hd : d < 16)
     (c : List Bytes) (hns : nameOf c ≠ "SELECT") (hnr : effName c ≠ "SPOP")
     (hdb : cfg.logSelect = true ∨ d = st.file)
     (sL : Store) (nowL : Nat) (obsL : Option (List Bytes)) (hqL : purge nowL (getDb sL d) = getDb sL d)
-    (cR : Conn) (hfile : st.file = cR.cur) (hA : Agree sL cR.store)
+    (cR : Conn) (hfile : FileOk cfg st cR) (hA : Agree sL cR.store)
     (es : List REntry) (hes : es.map (·.cmd) = selFor cfg st d ++ [c]) (hqR : quietReplay q cR es = true) :
     Agree (KS.step q sL d nowL (effCmd c) obsL).1 (replayFrom q cR es).store ∧
       (replayFrom q cR es).cur = fileAfter cfg st d := by
@@ -278,6 +282,10 @@ theorem replay_entries_sim (q : Quirks) (cfg : Cfg) (st : LogSt) (d : Nat) (hd :
     · simp at hes
   · -- the reader already is in database `d`
     have hsf : selFor cfg st d = [] := by unfold selFor; simp [hsel]
+    have hfile : st.file = cR.cur := by
+      rcases hfile with h | ⟨hl, h16⟩
+      · exact h
+      · exact absurd ⟨hl, by omega⟩ hsel
     have hcur : cR.cur = d := by
       rw [← hfile]
       rcases hdb with h | h
@@ -306,10 +314,10 @@ theorem replay_entries_sim (q : Quirks) (cfg : Cfg) (st : LogSt) (d : Nat) (hd :
 /-! ## One event, then a whole history -/
 
 /-- what the induction carries: the stores agree, and the log's tracking state describes the two connections -/
-structure Inv (cL : Conn) (st : LogSt) (cR : Conn) : Prop where
+structure Inv (cfg : Cfg) (cL : Conn) (st : LogSt) (cR : Conn) : Prop where
   agree : Agree cL.store cR.store
   conn : st.conn = cL.cur
-  file : st.file = cR.cur
+  file : FileOk cfg st cR
   lt : cL.cur < 16
 
 theorem selTarget_lt (cur : Nat) (raw : List Bytes) (h : cur < 16) : selTarget cur raw < 16 := by
@@ -323,11 +331,11 @@ theorem map_eq_nil' {α β : Type} {f : α → β} {l : List α} (h : l.map f = 
   | cons a t => simp at h
 
 theorem ev_sim (q : Quirks) (cfg : Cfg) (hwf : cfg.wf = true) (ev : Ev) (cL cR : Conn) (st : LogSt)
-    (hI : Inv cL st cR) (es : List REntry) (hes : es.map (·.cmd) = (logEv cfg st ev).1)
+    (hI : Inv cfg cL st cR) (es : List REntry) (hes : es.map (·.cmd) = (logEv cfg st ev).1)
     (hin : inModel ev = true) (hcov : covered cfg st ev = true)
     (hqL : quietStep cL (evDb cL ev) (evNow ev) = true) (hqR : quietReplay q cR es = true)
     (hok : StoreOk cL.store) (hdraw : drawOk q cL ev = true) :
-    Inv (execEv q cL ev) (logEv cfg st ev).2 (replayFrom q cR es) := by
+    Inv cfg (execEv q cL ev) (logEv cfg st ev).2 (replayFrom q cR es) := by
   have hselw : isWrite cfg.writes "SELECT" = false := by
     unfold Cfg.wf at hwf
     unfold isWrite
@@ -371,7 +379,7 @@ theorem ev_sim (q : Quirks) (cfg : Cfg) (hwf : cfg.wf = true) (ev : Ev) (cL cR :
             · rw [h] at h'; exact absurd h' (by decide)
             · exact hne h'
           have := replay_entries_sim q cfg st cL.cur hI.lt raw hs hnr hdb cL.store now obs hqL' cR hI.file hI.agree es hes hqR
-          exact ⟨this.1, rfl, this.2.symm, hI.lt⟩
+          exact ⟨this.1, rfl, Or.inl this.2.symm, hI.lt⟩
         · -- SPOP logged by its effect
           have hne : nameOf raw ≠ "EVAL" := by rw [hsp]; decide
           have heffc : effCmd raw = raw := by unfold effCmd; rw [unwrap_of_name_ne raw hne]; rfl
@@ -395,7 +403,7 @@ theorem ev_sim (q : Quirks) (cfg : Cfg) (hwf : cfg.wf = true) (ev : Ev) (cL cR :
             have := replay_entries_sim q cfg st cL.cur hI.lt (sremCmd key (m :: ms)) hns2 hnr2 hdb cL.store now none hqL' cR
               hI.file hI.agree es hes hqR
             rw [heff2] at this
-            exact ⟨this.1, rfl, this.2.symm, hI.lt⟩
+            exact ⟨this.1, rfl, Or.inl this.2.symm, hI.lt⟩
           · -- it took nothing: no entry, and nothing changed
             rw [he] at hes ⊢
             simp only at hes ⊢
@@ -442,7 +450,7 @@ theorem ev_sim (q : Quirks) (cfg : Cfg) (hwf : cfg.wf = true) (ev : Ev) (cL cR :
     have := replay_entries_sim q cfg st db hin (popCmd left key) hns hnr hdb cL.store now none hqL' cR hI.file hI.agree es hes hqR
     rw [heff] at this
     simp only [execEv]
-    exact ⟨this.1, hI.conn, this.2.symm, hI.lt⟩
+    exact ⟨this.1, hI.conn, Or.inl this.2.symm, hI.lt⟩
 
 theorem quietReplay_append (q : Quirks) (c : Conn) (a b : List REntry) :
     quietReplay q c (a ++ b) = (quietReplay q c a && quietReplay q (replayFrom q c a) b) := by
@@ -471,7 +479,7 @@ theorem execEv_ok (q : Quirks) (c : Conn) (ev : Ev) (h : StoreOk c.store) : Stor
     (and the draws reported for SPOPs logged by their effect are what those commands took). -/
 theorem replay_sim (q : Quirks) (cfg : Cfg) (hwf : cfg.wf = true) :
     ∀ (h : List Ev) (cL cR : Conn) (st : LogSt) (es : List REntry),
-      Inv cL st cR → StoreOk cL.store → es.map (·.cmd) = logFrom cfg st h → (∀ ev ∈ h, inModel ev = true) →
+      Inv cfg cL st cR → StoreOk cL.store → es.map (·.cmd) = logFrom cfg st h → (∀ ev ∈ h, inModel ev = true) →
       coveredFrom cfg st h = true → quietLive q cL h = true → quietReplay q cR es = true → drawsOk q cL h = true →
       Agree (liveFrom q cL h).store (replayFrom q cR es).store := by
   intro h
@@ -521,7 +529,7 @@ theorem drawsOk_of_no_spop (q : Quirks) : ∀ (h : List Ev) (c : Conn),
 /-! ## Corollaries used by the property theorems -/
 
 
-theorem inv_init : Inv {} {} {} := ⟨rfl, rfl, rfl, by decide⟩
+theorem inv_init (cfg : Cfg) : Inv cfg {} {} {} := ⟨rfl, rfl, Or.inl rfl, by decide⟩
 
 /-- with SELECT tracking, pops made for blocking clients logged and a table that contains every mutating name and
     EVAL, every event is covered except a random write logged verbatim (SPOP inside a script; any SPOP without
